@@ -222,6 +222,18 @@ retry:
 
     border_node* bn = *target;
     /**
+     * A border node that ends the scan must be part of the node version set even if
+     * it contributed no tuple itself (e.g. it only holds links to next layers):
+     * a key inserted later into the scanned range may land in this node.
+     */
+    auto log_node_without_tuple = [&tuple_pushed_num, &node_version_vec, &v_at_fb,
+                                   &bn]() {
+        if (!tuple_pushed_num && node_version_vec != nullptr) {
+            node_version_vec->emplace_back(
+                    std::make_pair(v_at_fb, bn->get_version_ptr()));
+        }
+    };
+    /**
      * next node pointer must be logged before optimistic verify.
      * When right_to_left is true, we stop at the first border node and don't use this.
      * TODO When we extend reverse scan for multiple entries, we need get_prev() here.
@@ -312,9 +324,13 @@ retry:
                                      r_key.size() < full_key.size()
                                              ? r_key.size()
                                              : full_key.size());
-                if (ret_cmp < 0) { return status::OK_SCAN_END; }
+                if (ret_cmp < 0) {
+                    log_node_without_tuple();
+                    return status::OK_SCAN_END;
+                }
                 if (ret_cmp == 0) {
                     if (r_key.size() <= full_key.size()) {
+                        log_node_without_tuple();
                         return status::OK_SCAN_END;
                     }
                     arg_r_key = r_key;
@@ -334,6 +350,7 @@ retry:
                 goto retry; // NOLINT
             }
             if (max_size != 0 && tuple_list.size() >= max_size) {
+                log_node_without_tuple();
                 return status::OK_SCAN_END;
             }
         } else {
